@@ -14,7 +14,7 @@ from harness.props import c04
 from harness.lib import RunResult
 
 PID = "C11"
-COQ_TARGETS = ["props/C11.vo"]
+COQ_TARGETS = ["props/C11.vo", "model/EngineInv.vo"]   # EngineInv: needed by the extracted oracle
 THEOREMS = [
     "Stab.props.C11.C11_source_shape",
     "Stab.props.C11.C11_acquire_claim_as_coded",
@@ -41,7 +41,12 @@ ASSUMPTIONS = [
 
 
 def run(ctx) -> RunResult:
-    return c04.check(ctx, PID)
+    res = c04.check(ctx, PID)
+    # single-worker schedules of the whole engine (commit-level correspondence with model/Engine.v): suspended / paused /
+    # stopped mutex holders, signals, crashes + recovery; monitor: mutex exclusivity and one choice winner at every commit
+    from harness import engine_corr
+    engine_corr.extend(ctx, res, PID)
+    return res
 
 
 def search(ctx, broken) -> list:
